@@ -403,7 +403,12 @@ def enumerate_cases(tier):
                 yield from flatgen.roots_numeric(name, e)
             for name, e in d1l:
                 yield from flatgen.roots_logical(name, e)
-        gens = [('shapes', d1()), ('alldiffcont', flatgen.family_alldiff_cont())]
+        # ... and every (parent, slot, child) pair under a logical root (a nested logical operator receives its result bounds by
+        # propagation from the parent: a feasible model must not come back as infeasible)
+        def d2log():
+            for name, m in flatgen.family_shapes('quick'):
+                if name.startswith('log ') and '<-' in name: yield name, m
+        gens = [('shapes', d1()), ('shapes', d2log()), ('alldiffcont', flatgen.family_alldiff_cont())]
     for fam, g in gens:
         for i, (name, m) in enumerate(g):
             root = name.split(' ')[0] if fam == 'shapes' else fam
@@ -411,7 +416,7 @@ def enumerate_cases(tier):
                    nlmodel.ops_of(m.lcons[0]) if m.lcons else nlmodel.ops_of(m.objs[0][1]) if m.objs and m.objs[0][1] else ['lin'])
             if m.objs and m.objs[0][1]:
                 top = nlmodel.ops_of(m.objs[0][1])
-            C.append(mkcase('%s/%d/%s' % (fam, i, name), 'shape:%s:%s' % (root, top[0] if top else 'lin'), 'convert', nl=m.nl(),
+            C.append(mkcase('%s/%d/%s' % (fam, len(C), name), 'shape:%s:%s' % (root, top[0] if top else 'lin'), 'convert', nl=m.nl(),
                             expect={'grid_feasible': grid_feasible(m)}))
     # ---- (b) infeasible ------------------------------------------------------------------------
     for name, m in infeasible_models():
